@@ -341,8 +341,8 @@ macro_rules! c02_g_bbox {
 }
 const PL_DL: [Point; 2] = [Point::new(3, 0), Point::new(0, 4)];
 const PL_UR: [Point; 2] = [Point::new(0, 3), Point::new(4, 0)];
-#[cfg(feature = "thorough")]
-c02_g_bbox!(c02_t_g_thick_polyline_bbox, 24, [(PL_DL, 3)]);
+// (c02 thick polyline bounding box end to end: no verdict within 2700 s even for one two-vertex
+// polyline of width 3 -> not registered in any tier; see DESIGN A.4)
 
 // (A hooked kernel for thick-segment corners vs Styled<Polyline>::bounding_box() with symbolic end points
 // ran out of memory at 10 GB with 4-bit points and did not finish in 20 minutes with 3-bit points and 20 GB:
